@@ -381,6 +381,8 @@ def run(repo: Repo, rep):
     r5_reductions(repo, rep)
     r6_track(repo, rep)
     r7_sibling_init(repo, rep)
+    from .c14 import r1b_setup  # data functions may be pre-evaluated only for samplers whose points never change
+    r1b_setup(repo, rep)
     from .c12 import r3_selection  # name-based selection used by every model's input re-ordering
     r3_selection(repo, rep)
 
